@@ -32,6 +32,11 @@ pub fn scenarios(thorough: bool) -> Vec<Scenario> {
     let mut two = crate::props::c01::pool_cfg();
     two.seal_actions = vec![None, Some(action_dest(1))];
     v.push(sc("custom02-pools-history", NetID::Custom02, 0, two, if thorough { 9 } else { 6 }));
+    // the legacy deposit rule ends at 978392 on mainnet/testnet; TIP-902 changes the peg at 180000 (one request per block)
+    let mut bc = cfg_requests();
+    bc.max_txs_per_block = 1;
+    bc.mints = false;
+    v.extend(boundary_scenarios(&bc, if thorough { 7 } else { 5 }, thorough));
     if thorough {
         v.push(sc("testnet-requests", NetID::Testnet, 0, cfg_requests(), 7));
         v.push(sc("custom08-requests", NetID::Custom08, 0, cfg_requests(), 6));
